@@ -1,10 +1,12 @@
 /-
   C14S: serialization — closed-form sizes, the selected-terms mask identity, the byte-width rule of the
   compact format and stream framing as a monoid law (helpers tagged `c14s_`).
-  Core Lean only (no Mathlib).
+  Everything except the section "instantiation with the model's NTT" is core Lean; that section uses the C09
+  theorems (`intt_ntt`, `ntt_intt`, `intt_sim`, `NTTTables.new_wf_u64`).
 -/
 import Heathcliff.Proofs.Codec
 import Heathcliff.Proofs.CodecExact
+import Heathcliff.Proofs.C09G
 namespace HC.Codec
 
 /-! ## S3  the byte-width rule `get_u64_limit` -/
@@ -1527,6 +1529,127 @@ theorem c14s_kswitchC_valid {γ} (pk : Codec γ) (k : KSwitch γ) (h1 : k.pid.le
   ⟨c14s_pidC_valid k.pid h1 h2,
     c14s_vecC_valid (vecC pk) k.keys h3 (fun r hr => c14s_vecC_valid pk r (h4 r hr) (h5 r hr))⟩
 
+/-! ## instantiation with the model's NTT (C09): the `fwd` / `inv` the driver plugs in -/
+
+/-- forward / inverse negacyclic NTT of component `j` through the C09 model, for a family of tables -/
+def c14s_nttFwd (tab : Level → Nat → HC.NTTTables) (lv : Level) (j : Nat) (x : List Nat) : List Nat :=
+  (HC.ntt (tab lv j) x.toArray).toList
+def c14s_nttInv (tab : Level → Nat → HC.NTTTables) (lv : Level) (j : Nat) (x : List Nat) : List Nat :=
+  (HC.intt (tab lv j) x.toArray).toList
+
+/-- the tables belong to the level: well formed (what `NTTTables.new` establishes, `NTTTables.new_wf_u64`),
+    degree `N`, modulus `q_j` -/
+structure c14s_TablesFor (tab : Level → Nat → HC.NTTTables) (lv : Level) : Prop where
+  wf : ∀ j, j < lv.moduli.length → (tab lv j).WF
+  deg : ∀ j, j < lv.moduli.length → 2 ^ (tab lv j).k = lv.n
+  q : ∀ j, j < lv.moduli.length → (tab lv j).modulus.value = lv.moduli.getD j 0
+
+theorem c14s_intt_list (t : HC.NTTTables) (hw : t.WF) (x : List Nat) (hl : x.length = 2 ^ t.k)
+    (hx : ∀ i, x.getD i 0 < 2 * t.modulus.value) :
+    (HC.intt t x.toArray).toList.length = 2 ^ t.k ∧ ∀ i, (HC.intt t x.toArray).toList.getD i 0 < t.modulus.value := by
+  obtain ⟨g1, g2⟩ := HC.intt_sim hw x.toArray (by simpa using hl) (fun j _ => by simpa using hx j)
+  refine ⟨by simpa using g1, fun i => ?_⟩
+  by_cases hi : i < 2 ^ t.k
+  · have := (g2 i hi).1
+    simpa using this
+  · have h2 := hw.mwf.two_le
+    have hlen : (HC.intt t x.toArray).toList.length ≤ i := by simp [g1]; omega
+    rw [List.getD_eq_getElem?_getD, List.getElem?_eq_none hlen]
+    show 0 < t.modulus.value
+    omega
+
+theorem c14s_intt_ntt_list (t : HC.NTTTables) (hw : t.WF) (y : List Nat) (hl : y.length = 2 ^ t.k)
+    (hy : ∀ i, y.getD i 0 < t.modulus.value) :
+    (HC.intt t (HC.ntt t y.toArray).toList.toArray).toList = y := by
+  simp [HC.intt_ntt hw y.toArray (by simpa using hl) (fun j _ => by simpa using hy j)]
+
+theorem c14s_ntt_intt_list (t : HC.NTTTables) (hw : t.WF) (y : List Nat) (hl : y.length = 2 ^ t.k)
+    (hy : ∀ i, y.getD i 0 < t.modulus.value) :
+    (HC.ntt t (HC.intt t y.toArray).toList.toArray).toList = y := by
+  simp [HC.ntt_intt hw y.toArray (by simpa using hl) (fun j _ => by simpa using hy j)]
+
+theorem c14s_getElem?_lt {α} (p : List α) (j : Nat) (x : α) (h : p[j]? = some x) : j < p.length := by
+  rcases Nat.lt_or_ge j p.length with h1 | h1
+  · exact h1
+  · rw [List.getElem?_eq_none h1] at h; cases h
+
+/-- with the real transforms the idempotence hypothesis holds as soon as polynomial 0 has the level's shape
+    and lazily reduced (`< 2 q_j`) components -/
+theorem c14s_ntt_invFwdOnMasked (tab : Level → Nat → HC.NTTTables) (lv : Level) (ht : c14s_TablesFor tab lv)
+    (T : List Nat) (p : Poly) (hp : p.length ≤ lv.moduli.length)
+    (hc : ∀ j comp, p[j]? = some comp → comp.length = lv.n ∧ ∀ i, comp.getD i 0 < 2 * lv.moduli.getD j 0) :
+    c14s_InvFwdOnMasked lv (c14s_nttFwd tab) (c14s_nttInv tab) T p := by
+  intro j comp hj
+  have hjk : j < lv.moduli.length := Nat.lt_of_lt_of_le (c14s_getElem?_lt p j comp hj) hp
+  obtain ⟨hcl, hcv⟩ := hc j comp hj
+  have hw := ht.wf j hjk
+  have hd := ht.deg j hjk
+  have hq := ht.q j hjk
+  obtain ⟨_, h2⟩ := c14s_intt_list (tab lv j) hw comp (by rw [hd]; exact hcl) (fun i => by rw [hq]; exact hcv i)
+  unfold c14s_nttFwd c14s_nttInv
+  apply c14s_intt_ntt_list (tab lv j) hw
+  · rw [c14s_mask_length, hd]
+  · intro i
+    rw [c14s_mask_getD]
+    have h0 := hw.mwf.two_le
+    by_cases hcnd : i < lv.n ∧ i ∈ T
+    · rw [if_pos hcnd]; exact h2 i
+    · rw [if_neg hcnd]; omega
+
+/-- … and the `T = all` hypotheses hold for reduced components -/
+theorem c14s_ntt_fwd_inv (tab : Level → Nat → HC.NTTTables) (lv : Level) (ht : c14s_TablesFor tab lv)
+    (p : Poly) (hp : p.length ≤ lv.moduli.length)
+    (hc : ∀ j comp, p[j]? = some comp → comp.length = lv.n ∧ ∀ i, comp.getD i 0 < lv.moduli.getD j 0) :
+    ∀ j comp, p[j]? = some comp →
+      (c14s_nttInv tab lv j comp).length = lv.n ∧ c14s_nttFwd tab lv j (c14s_nttInv tab lv j comp) = comp := by
+  intro j comp hj
+  have hjk : j < lv.moduli.length := Nat.lt_of_lt_of_le (c14s_getElem?_lt p j comp hj) hp
+  obtain ⟨hcl, hcv⟩ := hc j comp hj
+  have hw := ht.wf j hjk
+  have hd := ht.deg j hjk
+  have hq := ht.q j hjk
+  obtain ⟨h1, _⟩ := c14s_intt_list (tab lv j) hw comp (by rw [hd]; exact hcl)
+    (fun i => by rw [hq]; have := hcv i; omega)
+  refine ⟨by unfold c14s_nttInv; rw [h1, hd], ?_⟩
+  unfold c14s_nttFwd c14s_nttInv
+  exact c14s_ntt_intt_list (tab lv j) hw comp (by rw [hd]; exact hcl) (fun i => by rw [hq]; exact hcv i)
+
+/-- a concrete table built by `NTTTables.new`: `N = 4`, `q = 97`, primitive 8th root handed in: 64 -/
+def c14s_m97 : HC.Modulus := ⟨97, 11600529778312192253, 190172619316593315, 35, 7⟩
+theorem c14s_m97_mk : HC.Modulus.mk? 97 = .ok c14s_m97 := by rfl
+theorem c14s_m97_wf : c14s_m97.WF := (HC.Modulus.mk?_wf c14s_m97_mk (by decide)).1
+
+def c14s_t97 : HC.NTTTables :=
+  (HC.NTTTables.new 2 c14s_m97 true 64).toOption.getD ⟨0, c14s_m97, 0, #[], #[], ⟨0, 0⟩⟩
+
+theorem c14s_t97_new : HC.NTTTables.new 2 c14s_m97 true 64 = .ok c14s_t97 := by
+  have h : (HC.NTTTables.new 2 c14s_m97 true 64).toOption.isSome = true := by decide +kernel
+  unfold c14s_t97
+  cases hr : HC.NTTTables.new 2 c14s_m97 true 64 with
+  | error e => rw [hr] at h; simp [Except.toOption] at h
+  | ok b => simp [Except.toOption]
+
+theorem c14s_t97_facts : c14s_t97.WF ∧ c14s_t97.k = 2 ∧ c14s_t97.modulus = c14s_m97 := by
+  obtain ⟨h1, h2, h3, _⟩ := HC.NTTTables.new_wf_u64 c14s_m97_wf (by decide) (by decide) c14s_t97_new
+  exact ⟨h1, h2, h3⟩
+
+def c14s_exTab : Level → Nat → HC.NTTTables := fun _ _ => c14s_t97
+def c14s_exLevelNtt : Level := ⟨[1, 2, 3, 4], 1, 4, [97]⟩
+
+theorem c14s_exTab_for : c14s_TablesFor c14s_exTab c14s_exLevelNtt where
+  wf := fun _ _ => c14s_t97_facts.1
+  deg := by
+    intro j _
+    show 2 ^ c14s_t97.k = 4
+    rw [c14s_t97_facts.2.1]; rfl
+  q := by
+    intro j hj
+    have hj1 : j < 1 := hj
+    have : j = 0 := by omega
+    subst this
+    show c14s_t97.modulus.value = 97
+    rw [c14s_t97_facts.2.2]; rfl
+
 /-! ## Property theorems -/
 
 /-! ### S1: `(encode x).length = closed form` -/
@@ -1759,5 +1882,132 @@ theorem c14s_framing_monoid {α} (c : Codec α) :
   ⟨rfl, c14s_encodeMany_append c, c14s_repC_enc c, c14s_vecC_enc c,
    fun hc xs hv rest => c14s_decodeMany_encodeMany c hc xs hv rest,
    fun hc he xs hv rest => c14s_decodeMany_encodeMany_exact c hc he xs hv rest⟩
+
+/-! ## refusals (error branches of the readers / writers, stated separately) -/
+
+/-- the writer's `assert_eq!(value, 0)`: a value that does not fit the width is outside the writer's domain -/
+theorem c14s_limC_refuses (w v : Nat) (h : 256 ^ w ≤ v) : ¬ (limC w).valid v :=
+  fun hv => absurd hv.2 (by omega)
+
+/-- any strict prefix of any valid encoding is refused with `UnexpectedEof` (every lawful format) -/
+theorem c14s_truncated_eof {α} (c : Codec α) (hc : c.Lawful) (x : α) (hx : c.valid x) (k : Nat)
+    (hk : k < (c.enc x).length) : ∃ s, c.dec ((c.enc x).take k) = .error (.eof s) := hc.pre x hx k hk
+
+theorem c14s_guard_pid_dec_bad (g : List Nat → Bool) (pid : List Nat) (hv : pidC.valid pid) (hg : g pid = false)
+    (rest : Bytes) : (guardC pidC g).dec (pidC.enc pid ++ rest) = .error .bad := by
+  have h1 := pidC_lawful.rt pid hv rest
+  have h2 := pidC_exact pid hv
+  simp only [guardC, h1, h2, hg]
+  rfl
+
+/-- a parms id unknown to the context is refused by every ciphertext reader (compact, terms, full)
+    right after the 32 id bytes, whatever follows -/
+theorem c14s_unknown_pid_refused (ctx : Ctx) (pid : List Nat) (hv : pidC.valid pid) (hn : ctx.find pid = none)
+    (rest : Bytes) :
+    (∀ expand, (ctC ctx expand).dec (pidC.enc pid ++ rest) = .error .bad) ∧
+    (∀ expand fwd inv T, (ctTermsC ctx expand fwd inv T).dec (pidC.enc pid ++ rest) = .error .bad) ∧
+    (∀ expand, (ctFullC ctx expand).dec (pidC.enc pid ++ rest) = .error .bad) := by
+  have hg := c14s_guard_pid_dec_bad (fun pid => (ctx.find pid).isSome) pid hv (by simp [hn]) rest
+  refine ⟨fun expand => ?_, fun expand fwd inv T => ?_, fun expand => ?_⟩
+  · simp only [ctC, mapC, ctWireC, depC, hg]
+  · simp only [ctTermsC, mapC, ctWireC, depC, hg]
+  · simp only [ctFullC, mapC, guardC, ctFullWireC, depC] at hg ⊢
+    simp only [hg]
+
+/-- a scheme byte above 3 is refused (`SchemeType::from` panics) -/
+theorem c14s_scheme_refused (v : Nat) (h1 : 3 < v) (h2 : v < 256) (rest : Bytes) :
+    schemeC.dec (u8C.enc v ++ rest) = .error .bad := by
+  have hv : u8C.valid v := c14s_u8_valid_of_lt v h2
+  have h := u8C_lawful.rt v hv rest
+  have hn : u8C.norm v = v := rfl
+  have hd : decide (v ≤ 3) = false := by simp; omega
+  simp only [schemeC, guardC, h, hn, hd]
+  rfl
+
+/-- S1 for a key set of expanded public keys at one level: every present key costs the compact size of a
+    size-2 ciphertext -/
+theorem c14s_kswitch_ct_size (ctx : Ctx) (expand : List Nat → Level → Poly) (k : KSwitch Ct) (lv : Level)
+    (hv : (kswitchC (ctC ctx expand)).valid k)
+    (hk : ∀ r ∈ k.keys, ∀ x ∈ r, (ctC ctx expand).valid x ∧ (ctx.find x.pid).getD noLevel = lv ∧ x.size = 2 ∧ x.seeded = false) :
+    ((kswitchC (ctC ctx expand)).enc k).length
+      = 32 + 8 + 8 * k.keys.length + c14s_ctSize lv 2 false * (k.keys.map List.length).sum := by
+  apply c14s_len_kswitch _ (ctC_lawful ctx expand) k _ hv
+  intro r hr x hx
+  obtain ⟨h1, h2, h3, h4⟩ := hk r hr x hx
+  rw [c14s_ctC_size ctx expand x h1, h2, h3, h4]
+
+/-! ### S2 with the model's NTT -/
+
+/-- for the transforms the driver uses (C09 `ntt` / `intt` on tables belonging to the level) and an NTT- or
+    coefficient-form ciphertext whose polynomial 0 has reduced components of length `N`: masking is idempotent,
+    and selecting all terms restores what the compact format restores -/
+theorem c14s_terms_format_ntt (ctx : Ctx) (expand : List Nat → Level → Poly) (tab : Level → Nat → HC.NTTTables)
+    (T : List Nat) (c : Ct)
+    (ht : c14s_TablesFor tab ((ctx.find c.pid).getD noLevel))
+    (hne : c.polys ≠ [] ∨ c.seed = [])
+    (hp0 : ∀ p0, c.polys.head? = some p0 → p0.length ≤ ((ctx.find c.pid).getD noLevel).moduli.length ∧
+      ∀ j comp, p0[j]? = some comp → comp.length = ((ctx.find c.pid).getD noLevel).n ∧
+        ∀ i, comp.getD i 0 < ((ctx.find c.pid).getD noLevel).moduli.getD j 0) :
+    c14s_maskTerms ctx expand (c14s_nttFwd tab) (c14s_nttInv tab) T
+        (c14s_maskTerms ctx expand (c14s_nttFwd tab) (c14s_nttInv tab) T c)
+      = c14s_maskTerms ctx expand (c14s_nttFwd tab) (c14s_nttInv tab) T c ∧
+    ((∀ i, i < ((ctx.find c.pid).getD noLevel).n → i ∈ T) →
+      c14s_maskTerms ctx expand (c14s_nttFwd tab) (c14s_nttInv tab) T c
+        = ctOfWire ctx expand (fun _ _ p => p) (ctToWire ctx (fun _ _ p => p) c)) := by
+  refine ⟨?_, fun hT => ?_⟩
+  · apply c14s_maskTerms_idem ctx expand _ _ T c hne
+    intro _ p0 hp
+    obtain ⟨hl, hc⟩ := hp0 p0 hp
+    exact c14s_ntt_invFwdOnMasked tab _ ht T p0 hl
+      (fun j comp hj => ⟨(hc j comp hj).1, fun i => by have := (hc j comp hj).2 i; omega⟩)
+  · apply c14s_maskTerms_all ctx expand _ _ T c hT
+    · intro _ p0 hp comp hcomp
+      obtain ⟨_, hc⟩ := hp0 p0 hp
+      obtain ⟨j, hj⟩ := List.getElem?_of_mem hcomp
+      exact (hc j comp hj).1
+    · intro _ p0 hp
+      obtain ⟨hl, hc⟩ := hp0 p0 hp
+      exact c14s_ntt_fwd_inv tab _ ht p0 hl hc
+
+theorem c14s_getD_lt_of_all (l : List Nat) (q : Nat) (hq : 0 < q) (h : ∀ v ∈ l, v < q) : ∀ i, l.getD i 0 < q := by
+  intro i
+  rw [List.getD_eq_getElem?_getD]
+  rcases Nat.lt_or_ge i l.length with h1 | h1
+  · rw [List.getElem?_eq_getElem h1]; exact h _ (List.getElem_mem h1)
+  · rw [List.getElem?_eq_none h1]; exact hq
+
+def c14s_exCtxNtt : Ctx := ⟨[c14s_exLevelNtt], 17, 4⟩
+
+/-- NTT-form, seeded, reduced residues mod 97 -/
+def c14s_exCtNtt : Ct :=
+  ⟨[1, 2, 3, 4], 2, true, oneF64, 1, [[[96, 5, 0, 41]]], [1, 2, 3, 4, 5, 6, 7, 8]⟩
+
+theorem c14s_exCtNtt_hp0 : ∀ p0, c14s_exCtNtt.polys.head? = some p0 →
+    p0.length ≤ ((c14s_exCtxNtt.find c14s_exCtNtt.pid).getD noLevel).moduli.length ∧
+    ∀ j comp, p0[j]? = some comp → comp.length = ((c14s_exCtxNtt.find c14s_exCtNtt.pid).getD noLevel).n ∧
+      ∀ i, comp.getD i 0 < ((c14s_exCtxNtt.find c14s_exCtNtt.pid).getD noLevel).moduli.getD j 0 := by
+  intro p0 hp
+  have : p0 = [[96, 5, 0, 41]] := by
+    have h : some [[96, 5, 0, 41]] = some p0 := hp
+    injection h with h; exact h.symm
+  subst this
+  refine ⟨by decide, ?_⟩
+  intro j comp hj
+  have hj1 : j < 1 := c14s_getElem?_lt _ j comp hj
+  have : j = 0 := by omega
+  subst this
+  have : comp = [96, 5, 0, 41] := by
+    have h : some [96, 5, 0, 41] = some comp := hj
+    injection h with h; exact h.symm
+  subst this
+  exact ⟨rfl, c14s_getD_lt_of_all _ 97 (by decide) (by decide)⟩
+
+/-- the hypotheses of `c14s_terms_format_ntt` hold on a concrete NTT-form seeded ciphertext with tables built by `NTTTables.new` -/
+theorem c14s_ex_ntt_instance (expand : List Nat → Level → Poly) (T : List Nat) :
+    c14s_maskTerms c14s_exCtxNtt expand (c14s_nttFwd c14s_exTab) (c14s_nttInv c14s_exTab) T
+        (c14s_maskTerms c14s_exCtxNtt expand (c14s_nttFwd c14s_exTab) (c14s_nttInv c14s_exTab) T c14s_exCtNtt)
+      = c14s_maskTerms c14s_exCtxNtt expand (c14s_nttFwd c14s_exTab) (c14s_nttInv c14s_exTab) T c14s_exCtNtt :=
+  (c14s_terms_format_ntt c14s_exCtxNtt expand c14s_exTab T c14s_exCtNtt c14s_exTab_for
+    (Or.inl (by decide)) c14s_exCtNtt_hp0).1
 
 end HC.Codec
